@@ -1,6 +1,7 @@
 (* C08 - Leveraged-LP pool totals equal the sum of open positions. Statements only. *)
 From Coq Require Import ZArith List Bool Arith.
 From Elys Require Import Base.Res Base.Fn Models.SumLedger Proofs.SumLedgerProofs Models.LevLedger Proofs.LevLedgerProofs.
+From Elys Require Import Models.LevLedgerMulti Proofs.LevLedgerMultiProofs.
 Import ListNotations.
 Open Scope Z_scope.
 
@@ -31,6 +32,32 @@ Theorem C08_prefix_partial_close_refuted :
   In 0%nat (keys (l_sl s')) /\ l_comm s' 0%nat <> parts (l_sl s') 0%nat.
 Proof. exact prefix_partial_close_refuted. Qed.
 Print Assumptions C08_prefix_partial_close_refuted.
+
+(* SEVERAL leveraged-LP pools (Models/LevLedgerMulti.v: one machine per pool, ONE open counter for the module, every operation
+   names the pool of its position). For every duplicate-free set of pools and EVERY history of opens / closes / liquidations on
+   any of them, interleaved in any way: each pool's total = the sum over ITS stored positions, each stored position's amount =
+   the shares committed at its address, nothing is left at the address of a position no longer stored, and the module's single
+   counter = the number of stored positions of all pools together. *)
+Theorem C08_totals_per_pool : forall pools h, NoDup pools ->
+  Forall (fun po => In (fst po) pools /\ 0 < pos_amt (snd po)) h ->
+  let s := mlrun mlev_empty h in
+  (forall p, let t := ml_pool s p in
+     total (l_sl t) = sumf (parts (l_sl t)) (keys (l_sl t)) /\
+     (forall k, In k (keys (l_sl t)) -> l_comm t k = parts (l_sl t) k) /\
+     (forall k, ~ In k (keys (l_sl t)) -> l_comm t k = 0)) /\
+  ml_count s = sumf (fun p => Z.of_nat (length (keys (l_sl (ml_pool s p))))) pools.
+Proof. exact mlev_totals. Qed.
+Print Assumptions C08_totals_per_pool.
+
+(* a pool that no operation of a history names keeps its state: opens and closes on one pool cannot move another pool's total *)
+Theorem C08_other_pools_untouched : forall h s p, Forall (fun po => fst po <> p) h -> ml_pool (mlrun s h) p = ml_pool s p.
+Proof. exact mlrun_untouched. Qed.
+Print Assumptions C08_other_pools_untouched.
+
+Example C08_two_pools_nonvacuous :
+  let s := mlrun mlev_empty [(0%nat, LOpen 0 100); (2%nat, LOpen 1 50); (2%nat, LOpen 2 7); (0%nat, LClose 0 30); (2%nat, LClose 1 50); (2%nat, LClose 2 9)] in
+  total (l_sl (ml_pool s 0%nat)) = 70 /\ total (l_sl (ml_pool s 2%nat)) = 7 /\ ml_count s = 2 /\ keys (l_sl (ml_pool s 2%nat)) = [2%nat].
+Proof. vm_compute. repeat split. Qed.
 
 Example C08_nonvacuous :
   let s := lrun lev_empty [LOpen 0 100; LOpen 1 50; LOpen 0 20; LClose 1 50; LClose 0 30; LClose 0 500] in
